@@ -1,6 +1,7 @@
 """C15 Pathological nesting is reported as SQLParseError, never a crash (DESIGN.md section 6, C15)."""
 import json
 import os
+import select
 import subprocess
 import sys
 
@@ -15,13 +16,14 @@ RULE = ('cases: nesting construct in {parentheses, brackets, CASE, function call
         'openers, stray closers, mixtures, comment-laden parentheses, CREATE..BEGIN bodies, parentheses/calls/brackets/CASE with an operator, comparison or comma list at every level} x depth in [0.05, 3] x recursion limit x limit in {100,150,300,1000} '
         '(thorough adds 500,3000) x entry point in {parse, parsestream, split, format + drawn valid option set}; drawn by Hypothesis, executed in a plain-Python child '
         'process whose recursion limit is set after the imports; outcome must be ok (result passes round-trip and tree invariants computed by an iterative walk, '
-        'str() at the caller\'s stack depth) or SQLParseError; after every case an ordinary split/parse call must still work; a child that dies is a violation. '
+        'str() at the caller\'s stack depth) or SQLParseError; after every case - and inside the handler of every SQLParseError - an ordinary split/format call must still work; a child that dies or does not answer within 90 s (a call that never returns) is a violation; a quarter of the inputs continue with a second statement. '
         'leg moderate: the grid shape x depth in {25,51,60,120,200} x entry point x 9 fixed option sets at the default limit 1000, enumerated completely (the zone where calls normally succeed: any exception other than SQLParseError shows). non-trivial: depth >= 0.5 x limit (the guard is reached), or depth >= 51 at the default limit 1000; distinct by (construct, depth, limit, entry, options)')
 ASSUMPTIONS = ['the child process imports sqlparse before lowering the recursion limit (an application does the same)',
                'limits below 100 leave too little stack for an ordinary call and are not used']
 
 LIMITS = {'quick': [100, 150, 300, 1000], 'thorough': [100, 150, 300, 500, 1000, 3000]}
 ENTRIES = ['parse', 'parsestream', 'split', 'format']
+HANG_S = 90
 
 
 @st.composite
@@ -39,7 +41,9 @@ def cases(draw, limit):
             depth = min(depth, 1200)
     entry = draw(st.sampled_from(ENTRIES))
     opts = draw(O.valid_options()) if entry == 'format' else {}
-    return {'shape': shape, 'depth': depth, 'limit': limit, 'entry': entry, 'opts': opts}
+    # the nested statement is not always the last one of its script
+    tail = draw(st.sampled_from(['', '', ';\nselect 2;', '; select a from b where c = 1']))
+    return {'shape': shape, 'depth': depth, 'limit': limit, 'entry': entry, 'opts': opts, 'tail': tail}
 
 
 class Child:
@@ -53,12 +57,27 @@ class Child:
                                   stdin=subprocess.PIPE, stdout=subprocess.PIPE, stderr=subprocess.DEVNULL, env=env, text=True)
 
     def run(self, case):
+        hung = False
         try:
             self.p.stdin.write(json.dumps(case) + '\n')
             self.p.stdin.flush()
-            line = self.p.stdout.readline()
+            # a case takes milliseconds to a few seconds; a child that says nothing for HANG_S seconds is stuck (a call
+            # that never returns): it is killed and the case is reported
+            ready, _, _ = select.select([self.p.stdout], [], [], HANG_S)
+            if ready:
+                line = self.p.stdout.readline()
+            else:
+                hung = True
+                line = ''
         except (BrokenPipeError, OSError):
             line = ''
+        if hung:
+            try:
+                self.p.kill()
+            except Exception:
+                pass
+            self.start()
+            return {'outcome': 'child-hung', 'detail': 'no answer within %d s' % HANG_S, 'inv': None, 'after': None, 'len': 0}
         if not line:
             rc = self.p.poll()
             try:
@@ -78,21 +97,38 @@ class Child:
 
 
 _children = {}
+_hung = [0]
+_owner = [None]
 
 
 def check(case):
     limit = case['limit']
+    if _owner[0] != os.getpid():
+        # children started before a fork belong to the parent process: a shard talks to its own interpreters only
+        _children.clear()
+        _hung[0] = 0
+        _owner[0] = os.getpid()
+    if _hung[0] >= 2:
+        # two calls of this shard never returned (reported); every further case would only wait for the same stuck call
+        res = Result(key=['skipped', case['shape'], case['depth'], limit, case['entry']])
+        res.labels = ['skipped-after-two-hangs']
+        return res
     ch = _children.get(limit)
     if ch is None:
         ch = _children[limit] = Child(limit)
     out = ch.run(case)
-    res = Result(key=[case['shape'], case['depth'], limit, case['entry'], sorted((case.get('opts') or {}).items())])
+    if out['outcome'] == 'child-hung':
+        _hung[0] += 1
+    res = Result(key=[case['shape'], case['depth'], limit, case['entry'], sorted((case.get('opts') or {}).items()), case.get('tail') or ''])
     oc = out['outcome']
     if oc not in ('ok', 'SPE'):
         res.fail('escapes', '%s:%s:%s' % (oc, case['entry'], out.get('detail', '').split(' ')[0]),
                  '%s at depth %d (limit %d, %s, options %r): %s %s' % (case['shape'], case['depth'], limit, case['entry'], case.get('opts'), oc, out.get('detail', '')))
     if oc == 'ok' and out.get('inv'):
         res.fail('result-invariant', out['inv'], '%s at depth %d (limit %d, %s): result violates %s' % (case['shape'], case['depth'], limit, case['entry'], out['inv']))
+    if out.get('in_handler') not in ('ok', None):
+        res.fail('later-call', 'in-handler:' + str(out['in_handler']), 'an ordinary call made while the SQLParseError of %s depth %d (limit %d, %s) is handled gives %s' % (
+            case['shape'], case['depth'], limit, case['entry'], out['in_handler']))
     if out.get('after') not in ('ok', None):
         res.fail('later-call', str(out['after']), 'an ordinary call after %s depth %d (limit %d, %s) gives %s' % (case['shape'], case['depth'], limit, case['entry'], out['after']))
     res.nontrivial = case['depth'] >= 0.5 * limit or (limit >= 1000 and case['depth'] >= 51)
@@ -117,6 +153,8 @@ def run(tier, seed, shard, nshards, n, collector, leg):
     try:
         for case in drawn:
             collector.run_case(leg, case)
+            if _hung[0] >= 2:
+                break          # every further case would wait for the same stuck call
     finally:
         for ch in _children.values():
             ch.close()
